@@ -359,6 +359,29 @@ fn crate_routines<D: Subject<f64> + Copy>(ctx: &mut Ctx, d: Dims, mats: &[(Vec<V
                 aj[i][j] = jv;
             }
         }
+        // the same matrix held in column-major (Fortran) layout, as `a.t().to_owned()` and
+        // `from_shape_vec((n, n).f(), ..)` produce: the factorisation must not depend on the layout
+        if n >= 2 && (*class == "alphabet" || *class == "row-order") {
+            use ndarray::ShapeBuilder;
+            let mut af = Array2::<D>::from_elem((n, n).f(), D::from(0.0));
+            for i in 0..n {
+                for j in 0..n {
+                    af[(i, j)] = ad[(i, j)];
+                }
+            }
+            ctx.st.evaluations += 1;
+            match (guarded(|| LU::new(af).map(|lu| (lu.determinant(), lu.inverse()))), guarded(|| LU::new(ad.clone()).map(|lu| (lu.determinant(), lu.inverse())))) {
+                (Ok(Ok((d1, i1))), Ok(Ok((d2, i2)))) => {
+                    let same = to_j(d, l, &d1).c.iter().zip(to_j(d, l, &d2).c.iter()).all(|(a, b)| a.to_f64().to_bits() == b.to_f64().to_bits())
+                        && (0..n).all(|i| (0..n).all(|j| to_j(d, l, &i1[(i, j)]).c.iter().zip(to_j(d, l, &i2[(i, j)]).c.iter()).all(|(a, b)| a.to_f64().to_bits() == b.to_f64().to_bits())));
+                    if !same {
+                        ctx.flag("LU layout", &tn, n, class, "determinant / inverse of the column-major copy differ from those of the row-major matrix".into(), a_re);
+                    }
+                }
+                (Ok(Err(_)), Ok(Err(_))) => {}
+                (a, b) => ctx.flag("LU layout", &tn, n, class, format!("the column-major copy gives {} where the row-major matrix gives {}", if matches!(a, Ok(Ok(_))) { "a factorisation" } else { "an error / panic" }, if matches!(b, Ok(Ok(_))) { "a factorisation" } else { "an error / panic" }), a_re),
+            }
+        }
         let lu = match guarded(|| LU::new(ad.clone())) {
             Ok(Ok(lu)) => lu,
             Ok(Err(_)) => {
